@@ -135,8 +135,16 @@ func (ml *TruncatingMethodLogger) truncateMetadata(mdPb *binlogpb.Metadata) (tru
 		}
 		bytesLimit -= currentEntryLen
 	}
-	truncated = index < len(mdPb.Entry)
-	mdPb.Entry = mdPb.Entry[:index]
+	kept := mdPb.Entry[:index]
+	for _, entry := range mdPb.Entry[index:] {
+		if entry.Key == "grpc-trace-bin" {
+			// Always kept, also after the first entry that did not fit.
+			kept = append(kept, entry)
+		} else {
+			truncated = true
+		}
+	}
+	mdPb.Entry = kept
 	return truncated
 }
 
